@@ -182,6 +182,25 @@ def gen_area_case(rng, sph, force=None):
     spec['sentinel'] = sentinel
     spec['narrow'] = m0 is not None and (spec['m0'] > d0 or spec['m1'] < d1)
     f[kind + ' models'] = [m]
+    series_model = kind == 'temperature' and spec.get('name') in ('half space model', 'plate model', 'plate model constant age')
+    if force is None and not series_model and rng.random() < 0.3 and not any(p[0] == 0.0 or p[1] == 0.0 for p in poly):
+        # the FEATURE's own depth bounds as surfaces sampling an affine function (corners + one interior point): the model then works
+        # between the local top and bottom, i.e. max(feature, model) and min(feature, model) evaluated below the query point
+        fspan = d1 - d0
+
+        def f_affine(base):
+            return (base, rng.uniform(-1, 1) * 0.1 * fspan / hw, rng.uniform(-1, 1) * 0.1 * fspan / hw, cx, cy)
+
+        def f_table(fn):
+            tp = [tuple(p) for p in poly] + [(wg.R(cx + rng.uniform(-0.5, 0.5) * hw), wg.R(cy + rng.uniform(-0.5, 0.5) * hw))]
+            return [[wg.R(fn[0])]] + [[wg.R(fn[0] + fn[1] * (px - fn[3]) + fn[2] * (py - fn[4])), [[px, py]]] for (px, py) in tp]
+        fwhich = rng.choice(['min', 'max', 'max', 'both'])
+        if fwhich in ('max', 'both'):
+            spec['d1_fn'] = f_affine(d1)
+            f['max depth'] = f_table(spec['d1_fn'])
+        if fwhich in ('min', 'both') and d0 - 0.1 * fspan > 0:
+            spec['d0_fn'] = f_affine(d0)
+            f['min depth'] = f_table(spec['d0_fn'])
     doc['features'] = [f]
     # points
     pts = []
@@ -250,6 +269,19 @@ def expected_area(spec, ctx, sx, sy, d):
     g = spec['g']
     d0, d1, m0, m1 = spec['d0'], spec['d1'], spec['m0'], spec['m1']
     eps = 1e-9 * max(d1, 1.0)
+    fsurf = False
+    if 'd0_fn' in spec:
+        b, bx, by, xm, ym = spec['d0_fn']
+        d0 = b + bx * (sx - xm) + by * (sy - ym)
+        fsurf = True
+    if 'd1_fn' in spec:
+        b, bx, by, xm, ym = spec['d1_fn']
+        d1 = b + bx * (sx - xm) + by * (sy - ym)
+        fsurf = True
+    if fsurf:
+        eps = 1e-7 * max(d1, 1.0)
+        if not (d0 + eps < d < d1 - eps):
+            return None          # outside the feature's local range (or on it): C04's business
     if 'm0_fn' in spec:
         b, bx, by, xm, ym = spec['m0_fn']
         m0 = b + bx * (sx - xm) + by * (sy - ym)
@@ -263,7 +295,7 @@ def expected_area(spec, ctx, sx, sy, d):
         return None
     bg = adiabat(g, d)
     out = {}
-    if 'm0_fn' in spec or 'm1_fn' in spec:
+    if 'm0_fn' in spec or 'm1_fn' in spec or fsurf:
         out['_surface'] = True      # nodal values carry 12 digits: the interpolated bound is the affine function to ~1e-12 only (and
                                     # the chapman polynomial cancels: 2.3e-10 observed on a value of 0.8 K)
     kind = spec['kind']
